@@ -369,7 +369,7 @@ Proof.
   intros Hg Hc. destruct (is_without g) eqn:Hw.
   - unfold tracked. rewrite !flags_without by exact Hw. reflexivity.
   - destruct Hc as [Hc|Hc]; [discriminate|].
-    unfold tracked. rewrite !(flags_grouped _ g) by assumption. rewrite Hc.
+    unfold tracked. rewrite (flags_grouped ACount g n ms Hg Hw), (flags_grouped f g n ms Hg Hw). rewrite Hc.
     cbn [q_name query_filters].
     destruct (reorder _) as [o s]. f_equal. apply fold_step_gal.
 Qed.
@@ -395,7 +395,7 @@ Qed.
 
 Lemma all_keys_layout db1 db2 : Forall2 same_series db1 db2 -> all_keys db1 = all_keys db2.
 Proof.
-  unfold all_keys. generalize (@nil str). induction 1 as [|s1 s2 d1 d2 [Hn [Hl _]] _ IH]; intros acc; cbn; [reflexivity|].
+  unfold all_keys. intros H. generalize (@nil str). induction H as [|s1 s2 d1 d2 [Hn [Hl _]] _ IH]; intros acc; cbn; [reflexivity|].
   rewrite Hl. apply IH.
 Qed.
 
@@ -441,13 +441,13 @@ Lemma agg_at_layout name fn fields without db1 db2 tr gid t : Forall2 same_serie
   agg_at name fn fields without db1 tr gid t = agg_at name fn fields without db2 tr gid t.
 Proof.
   intros H.
-  assert (E : forall e, series_entry fn (nth_series db1 (fst e)) t = series_entry fn (nth_series db2 (fst e)) t)
+  assert (E : forall e : nat * str, series_entry fn (nth_series db1 (fst e)) t = series_entry fn (nth_series db2 (fst e)) t)
     by (intros e; apply series_entry_perm, nth_series_layout, H).
   assert (G : gid_entries fn fields without db1 tr gid t = gid_entries fn fields without db2 tr gid t).
   { unfold gid_entries. induction tr as [|e tr IH]; cbn; [reflexivity|]. rewrite IH, E. reflexivity. }
   assert (I : ids_with_entry fn db1 tr t = ids_with_entry fn db2 tr t).
-  { unfold ids_with_entry. apply filter_ext. intros g. induction tr as [|e tr IH]; cbn; [reflexivity|].
-    rewrite IH, E. reflexivity. }
+  { unfold ids_with_entry. apply filter_ext. intros g. generalize tr at 1 2. intros tr0.
+    induction tr0 as [|e tr0 IH]; cbn; [reflexivity|]. rewrite IH, E. reflexivity. }
   unfold agg_at. rewrite G, I. reflexivity.
 Qed.
 
@@ -753,7 +753,7 @@ Proof.
   - destruct (f_is_regex f).
     + destruct (tree_vals name (f_key f) db) eqn:Ev.
       * apply Hskip. apply (no_metric_if_no_vals name (f_key f) db Ht Ev).
-      * rewrite <- Ev. exact Hadd.
+      * exact Hadd.
     + exact Hadd.
   - apply Hskip. apply (no_metric_if_no_file name (f_key f) db Ht Ek).
 Qed.
@@ -876,8 +876,9 @@ Lemma filter_nonstar_matchers ms : forallb (fun m => negb (str_eqb (m_val m) sta
 Proof.
   induction ms as [|m ms IH]; cbn [forallb map filter]; [auto|].
   rewrite andb_true_iff. intros [H1 H2]. destruct (IH H2) as [E1 E2].
-  unfold f_is_star at 1 3. cbn [of_matcher f_val]. rewrite negb_true_iff in H1. rewrite H1. cbn [negb].
-  rewrite E1, E2. auto.
+  rewrite negb_true_iff in H1.
+  assert (Hm : f_is_star (of_matcher m) = false) by (unfold f_is_star; cbn [of_matcher f_val]; exact H1).
+  rewrite Hm. cbn [negb]. rewrite E1, E2. auto.
 Qed.
 
 Lemma filter_star_stars ks :
@@ -885,7 +886,8 @@ Lemma filter_star_stars ks :
   filter f_is_star (map (fun k => star_filter k false false) ks) = map (fun k => star_filter k false false) ks.
 Proof.
   induction ks as [|k ks [E1 E2]]; cbn [map filter]; [auto|].
-  unfold f_is_star at 1 3. cbn [star_filter f_val]. rewrite str_eqb_refl. cbn [negb]. rewrite E1, E2. auto.
+  assert (Hm : f_is_star (star_filter k false false) = true) by (unfold f_is_star; cbn [star_filter f_val]; apply str_eqb_refl).
+  rewrite Hm. cbn [negb]. rewrite E1, E2. auto.
 Qed.
 
 Lemma sat_matcher m s v : lookup (m_key m) (s_labels s) = Some v -> v <> [] ->
@@ -927,11 +929,9 @@ Proof.
   set (others := filter (fun f => negb (f_is_star f)) srt) in *.
   (* what the engine's filters mean on series i *)
   assert (Hsat : msat name others db i = spec_selected rmatch name ms s).
-  { unfold msat, spec_selected. rewrite Hi. f_equal. rewrite (forallb_perm _ _ _ Po), forallb_map.
-    destruct (str_eqb (s_name s) name) eqn:En.
-    2:{ (* not the metric: both sides are guarded by the name test *)
-        destruct (forallb (fun x => sat (of_matcher x) s) ms), (forallb (fun m => spec_match rmatch m (s_labels s)) ms);
-          try reflexivity; rewrite andb_false_l || idtac; reflexivity. }
+  { unfold msat, spec_selected. rewrite Hi.
+    destruct (str_eqb (s_name s) name) eqn:En; [cbn [andb] | reflexivity].
+    rewrite (forallb_perm _ _ _ Po), forallb_map.
     specialize (Gs _ _ Hi). unfold series_ok in Gs. rewrite En in Gs. cbn [negb orb] in Gs.
     rewrite !andb_true_iff in Gs. destruct Gs as [[Gk _] Gv].
     apply forallb_ext_in_local. intros m Hm.
@@ -941,9 +941,9 @@ Proof.
     rewrite forallb_forall in Gv. specialize (Gv _ Hk'). cbn [snd] in Gv. destruct v; [discriminate|congruence]. }
   destruct ms as [|m0 ms'].
   - (* no matcher: only key=* filters *)
-    apply Permutation_nil in Po. rewrite Po. cbn [app length Nat.eqb negb].
+    cbn [map] in Po. apply Permutation_sym, Permutation_nil in Po. rewrite Po. cbn [app length Nat.eqb negb].
     rewrite fold_stars_add. cbn [tr_mem orb].
-    rewrite (existsb_perm _ _ _ Pk). unfold ks. cbn [map mem_str negb]. rewrite filter_true.
+    rewrite <- (existsb_perm _ _ _ Pk). unfold ks. cbn [map mem_str negb]. rewrite filter_true.
     unfold spec_selected. cbn [forallb]. rewrite andb_true_r. rewrite existsb_exists. split.
     + intros [k [_ Hk]]. unfold lab_of in Hk. rewrite Hi in Hk. destruct (str_eqb (s_name s) name); [reflexivity|discriminate].
     + intros En. specialize (Gs _ _ Hi). unfold series_ok in Gs. rewrite En in Gs. cbn [negb orb] in Gs.
@@ -953,7 +953,7 @@ Proof.
       * apply all_keys_spec. exists s. split; [eapply nth_error_In; eauto|]. rewrite El. left. reflexivity.
       * unfold lab_of. rewrite Hi, En, El. cbn [lookup]. rewrite str_eqb_refl. reflexivity.
   - (* at least one matcher: value filters, then annotating stars *)
-    destruct others as [|f fs] eqn:Eo; [apply Permutation_sym, Permutation_nil in Po; discriminate|].
+    destruct others as [|f fs] eqn:Eo; [apply Permutation_nil in Po; discriminate|].
     cbn [length Nat.eqb negb]. rewrite fold_left_app. cbn [fold_left].
     assert (HF : Forall (fun f => f_is_star f = false /\ key_total name (f_key f) db) (f :: fs)).
     { apply Forall_forall. intros g Hg. assert (Hin : In g (map of_matcher (m0 :: ms'))) by (eapply Permutation_in; eauto).
@@ -962,12 +962,356 @@ Proof.
       - intros j s' Hj Hn. specialize (Gs _ _ Hj). unfold series_ok in Gs. rewrite Hn in Gs. cbn [negb orb] in Gs.
         rewrite !andb_true_iff in Gs. destruct Gs as [[Gk _] _]. rewrite forallb_forall in Gk. apply (Gk m Hm). }
     inversion HF as [|? ? [Hs Ht] HF']; subst.
-    pose proof (fun j => step_value true name db true [] f Hs Ht (fun j' H => ltac:(discriminate H)) (fun _ => eq_refl) j) as H1.
-    destruct (step_filter rmatch true true true name db (true, []) f) as [b tr1] eqn:E1.
-    assert (b = false) by (unfold step_filter in E1; injection E1 as <- _; reflexivity). subst b. cbn [snd] in H1.
-    pose proof (fold_values true name db fs [f] tr1 HF' H1) as H2.
-    destruct (fold_left (step_filter rmatch true true true name db) fs (false, tr1)) as [b2 tr2] eqn:E2.
-    cbn [snd] in H2. rewrite fold_stars_keep, H2. cbn [app]. rewrite Hsat. tauto.
+    set (st1 := step_filter rmatch true true true name db (true, []) f).
+    assert (H1 : forall j, tr_mem j (snd st1) = msat name [f] db j).
+    { intros j. exact (step_value true name db true [] f Hs Ht (fun j' H => ltac:(discriminate H)) (fun _ => eq_refl) j). }
+    assert (Est : st1 = (false, snd st1)) by (unfold st1, step_filter; reflexivity).
+    rewrite Est.
+    set (st2 := fold_left (step_filter rmatch true true true name db) fs (false, snd st1)).
+    assert (H2 : tr_mem i (snd st2) = msat name ([f] ++ fs) db i).
+    { exact (fold_values true name db fs [f] (snd st1) HF' H1 i). }
+    rewrite (surjective_pairing st2).
+    rewrite fold_stars_keep, H2. cbn [app]. rewrite Hsat. tauto.
 Qed.
 
 End WithRegex.
+
+(* ---------- group-key extraction by substring search ---------- *)
+Lemma has_byte_app c a b : has_byte c (a ++ b) = has_byte c a || has_byte c b.
+Proof. unfold has_byte. apply existsb_app. Qed.
+
+Lemma prefix_colon c f : forall k2 x, has_byte c f = false -> has_byte c k2 = false ->
+  is_prefix (f ++ [c]) (k2 ++ c :: x) = true -> f = k2.
+Proof.
+  induction f as [|a f IH]; intros [|y k2] x Hf Hk H; cbn in *.
+  - reflexivity.
+  - rewrite andb_true_r in H. rewrite orb_false_iff in Hk. destruct Hk as [Hk _]. congruence.
+  - rewrite orb_false_iff in Hf. destruct Hf as [Hf _]. rewrite andb_true_iff in H. destruct H as [H _].
+    rewrite N.eqb_sym in Hf. congruence.
+  - rewrite orb_false_iff in Hf, Hk. rewrite andb_true_iff in H. destruct H as [H1 H2].
+    apply N.eqb_eq in H1. subst y. f_equal. apply (IH k2 x); tauto.
+Qed.
+
+Lemma prefix_cross c d f : forall v2 rest, has_byte c v2 = false -> has_byte d f = false -> c <> d ->
+  is_prefix (f ++ [c]) (v2 ++ d :: rest) = false.
+Proof.
+  induction f as [|a f IH]; intros [|y v2] rest Hv Hf Hcd; cbn in *.
+  - apply andb_false_intro1. apply N.eqb_neq. exact Hcd.
+  - rewrite orb_false_iff in Hv. destruct Hv as [Hv _]. rewrite Hv. reflexivity.
+  - rewrite orb_false_iff in Hf. destruct Hf as [Hf _]. rewrite N.eqb_sym in Hf. rewrite Hf. reflexivity.
+  - rewrite orb_false_iff in Hv, Hf. rewrite (IH v2 rest); [apply andb_false_r | tauto | tauto | exact Hcd].
+Qed.
+
+Lemma find_sub_cons pat c s :
+  find_sub pat (c :: s) =
+  if is_prefix pat (c :: s) then Some ([], skipn (length pat) (c :: s))
+  else match find_sub pat s with Some (b, a) => Some (c :: b, a) | None => None end.
+Proof. reflexivity. Qed.
+
+(* the value found for a field: text after the first occurrence of the pattern, up to the next comma *)
+Definition after_pat (pat s : str) : option str :=
+  match find_sub pat s with Some (_, a) => Some (upto c_comma a) | None => None end.
+
+Lemma after_pat_skip pat s1 : forall s2,
+  (forall a b, s1 = a ++ b -> b <> [] -> is_prefix pat (b ++ s2) = false) ->
+  after_pat pat (s1 ++ s2) = after_pat pat s2.
+Proof.
+  induction s1 as [|c s1 IH]; intros s2 H; [reflexivity|].
+  unfold after_pat. cbn [app]. rewrite find_sub_cons.
+  pose proof (H [] (c :: s1) eq_refl ltac:(discriminate)) as H0. cbn [app] in H0. rewrite H0.
+  assert (IH' := IH s2 (fun a b E Hb => H (c :: a) b ltac:(rewrite E; reflexivity) Hb)).
+  unfold after_pat in IH'. destruct (find_sub pat (s1 ++ s2)) as [[b a]|]; exact IH'.
+Qed.
+
+Lemma is_prefix_app p x : is_prefix p (p ++ x) = true.
+Proof. induction p as [|a p IH]; cbn; [reflexivity|]. rewrite N.eqb_refl. exact IH. Qed.
+Lemma skipn_app_len {A} (p x : list A) : skipn (length p) (p ++ x) = x.
+Proof. induction p; cbn; auto. Qed.
+Lemma upto_clean c v x : has_byte c v = false -> upto c (v ++ c :: x) = v.
+Proof.
+  unfold upto. induction v as [|y v IH]; cbn; intros H.
+  - rewrite N.eqb_refl. reflexivity.
+  - rewrite orb_false_iff in H. destruct H as [H1 H2]. rewrite N.eqb_sym in H1. rewrite H1.
+    specialize (IH H2). destruct (split2 c (v ++ c :: x)). cbn in *. congruence.
+Qed.
+
+Lemma clean_bytes s : clean s = true ->
+  has_byte c_colon s = false /\ has_byte c_comma s = false /\ has_byte c_lbrace s = false.
+Proof. unfold clean. rewrite !andb_true_iff, !negb_true_iff. tauto. Qed.
+
+Lemma is_suffix_app a l : is_suffix l (a ++ l) = true.
+Proof.
+  induction a as [|x a IH]; cbn [app].
+  - destruct l; cbn [is_suffix]; rewrite str_eqb_refl; reflexivity.
+  - cbn [is_suffix]. rewrite IH. apply orb_true_r.
+Qed.
+
+Lemma no_occ_in_pair f k v rest :
+  has_byte c_colon k = false -> has_byte c_colon v = false ->
+  has_byte c_comma f = false -> has_byte c_colon f = false -> f <> [] ->
+  str_eqb k f = false -> is_suffix f k = false ->
+  forall a b, kv k v = a ++ b -> b <> [] -> is_prefix (f ++ [c_colon]) (b ++ rest) = false.
+Proof.
+  intros Hk Hv Hfc Hfk Hne Hkf Hsuf a b E Hb. unfold kv in E.
+  assert (Hcase2 : forall l, (exists a', k = a' ++ l) -> is_prefix (f ++ [c_colon]) ((l ++ c_colon :: v ++ [c_comma]) ++ rest) = false).
+  { intros l [a' Ek]. destruct (is_prefix _ _) eqn:P; [|reflexivity]. exfalso.
+    rewrite <- app_assoc in P. cbn [app] in P.
+    assert (Hl : has_byte c_colon l = false) by (rewrite Ek, has_byte_app, orb_false_iff in Hk; tauto).
+    apply prefix_colon in P; [|exact Hfk|exact Hl]. subst l.
+    rewrite Ek, is_suffix_app in Hsuf. discriminate. }
+  assert (Hvcase : forall m, (exists m', v = m' ++ m) -> is_prefix (f ++ [c_colon]) ((m ++ [c_comma]) ++ rest) = false).
+  { intros m [m' Ev]. rewrite <- app_assoc. cbn [app]. apply prefix_cross; [|exact Hfc|discriminate].
+    rewrite Ev, has_byte_app, orb_false_iff in Hv. tauto. }
+  symmetry in E. apply app_eq_app in E. destruct E as [l [[Ea Eb]|[Ek Eb]]].
+  - (* the cut is inside ":v," *)
+    destruct l as [|c l].
+    + cbn [app] in Eb. subst b. apply (Hcase2 []). exists k. rewrite app_nil_r. reflexivity.
+    + cbn [app] in Eb. injection Eb as Ec Eb. symmetry in Eb. apply app_eq_app in Eb.
+      destruct Eb as [m [[E1 E2]|[E1 E2]]].
+      * (* l = v ++ m, [44] = m ++ b *)
+        destruct m as [|x m]; [cbn in E2; subst b; apply (Hvcase []); exists v; rewrite app_nil_r; reflexivity|].
+        cbn in E2. injection E2 as _ E2. symmetry in E2. apply app_eq_nil in E2. tauto.
+      * (* v = l ++ m, b = m ++ [44] *)
+        subst b. apply Hvcase. exists l. exact E1.
+  - subst b. apply Hcase2. exists a. exact Ek.
+Qed.
+
+Lemma no_occ_in_name f name rest :
+  has_byte c_colon name = false -> has_byte c_lbrace f = false ->
+  forall a b, name ++ [c_lbrace] = a ++ b -> b <> [] -> is_prefix (f ++ [c_colon]) (b ++ rest) = false.
+Proof.
+  intros Hn Hf a b E Hb. symmetry in E. apply app_eq_app in E. destruct E as [l [[Ea Eb]|[Ek Eb]]].
+  - destruct l as [|c l].
+    + cbn in Eb. subst b. cbn [app]. apply (prefix_cross c_colon c_lbrace f [] rest); [reflexivity|exact Hf|discriminate].
+    + cbn in Eb. injection Eb as _ Eb. symmetry in Eb. apply app_eq_nil in Eb. tauto.
+  - subst b. rewrite <- app_assoc. cbn [app]. apply prefix_cross; [|exact Hf|discriminate].
+    rewrite Ek, has_byte_app, orb_false_iff in Hn. tauto.
+Qed.
+
+Lemma after_pat_body f ls :
+  labels_clean ls = true -> clean f = true -> f <> [] ->
+  forallb (fun p => str_eqb (fst p) f || negb (is_suffix f (fst p))) ls = true ->
+  after_pat (f ++ [c_colon]) (body ls) = lookup f ls.
+Proof.
+  intros Hl Hf Hne Hs. destruct (clean_bytes _ Hf) as [Hf1 [Hf2 Hf3]]. unfold labels_clean in Hl.
+  induction ls as [|[k v] ls IH]; [unfold after_pat, body; cbn; destruct f; reflexivity|].
+  cbn [forallb fst snd] in Hl, Hs. rewrite andb_true_iff in Hl. rewrite andb_true_iff in Hs.
+  destruct Hl as [Hkv Hl]. apply andb_true_iff in Hkv. destruct Hkv as [Hk Hv]. destruct Hs as [Hs1 Hs]. specialize (IH Hl Hs).
+  destruct (clean_bytes _ Hk) as [Hk1 _]. destruct (clean_bytes _ Hv) as [Hv1 [Hv2 _]].
+  unfold body. cbn [map concat fst snd lookup]. fold (body ls).
+  destruct (str_eqb k f) eqn:Ekf.
+  - apply str_eqb_eq in Ekf. subst k. unfold after_pat, kv.
+    assert (Es : (f ++ c_colon :: v ++ [c_comma]) ++ body ls = (f ++ [c_colon]) ++ v ++ c_comma :: body ls)
+      by (rewrite <- !app_assoc; cbn; rewrite <- app_assoc; reflexivity).
+    rewrite Es.
+    assert (Hfind : find_sub (f ++ [c_colon]) ((f ++ [c_colon]) ++ v ++ c_comma :: body ls) =
+                    Some ([], v ++ c_comma :: body ls)).
+    { destruct ((f ++ [c_colon]) ++ v ++ c_comma :: body ls) as [|c s] eqn:E.
+      - destruct f; discriminate.
+      - rewrite find_sub_cons, <- E, is_prefix_app, skipn_app_len. reflexivity. }
+    rewrite Hfind. rewrite upto_clean by exact Hv2. reflexivity.
+  - cbn [orb] in Hs1. rewrite negb_true_iff in Hs1.
+    rewrite after_pat_skip; [exact IH|]. apply no_occ_in_pair; assumption.
+Qed.
+
+(* FULL STATEMENT (what grouping needs): extract_field id f = the value of label f in the id.
+   Proved under extract_guard; refuted without it (group_key_extraction_refuted). *)
+Theorem group_key_extraction_guarded name ls f :
+  extract_guard name ls f = true -> extract_field (render_id name ls) f = lookup f ls.
+Proof.
+  unfold extract_guard. rewrite !andb_true_iff, negb_true_iff, Nat.eqb_neq.
+  intros [[[[Hn Hl] Hf] Hne] Hs].
+  assert (Hne' : f <> []) by (destruct f; [cbn in Hne; congruence | discriminate]).
+  change (extract_field (render_id name ls) f) with (after_pat (f ++ [c_colon]) (render_id name ls)).
+  unfold render_id. change (name ++ c_lbrace :: body ls) with (name ++ [c_lbrace] ++ body ls).
+  rewrite app_assoc, after_pat_skip.
+  - apply after_pat_body; assumption.
+  - apply no_occ_in_name; [apply (clean_bytes _ Hn) | apply (clean_bytes _ Hf)].
+Qed.
+
+(* witness: id m{ab:x,b:p,  — "b:" is first found inside "ab:" *)
+Theorem group_key_extraction_refuted :
+  exists name ls f, labels_clean ls = true /\ clean name = true /\ clean f = true /\
+    lookup f ls = Some [112%N] /\ extract_field (render_id name ls) f = Some [120%N].
+Proof. exists [109%N], [([97;98],[120]); ([98],[112])]%N, [98%N]. vm_compute. repeat split; reflexivity. Qed.
+
+(* ---------- group ids of by / without on well-formed ids ---------- *)
+Definition pair_str (p : str * str) : str := fst p ++ c_colon :: snd p.
+
+Lemma split_on_clean c s : has_byte c s = false -> split_on c s = [s].
+Proof.
+  induction s as [|y s IH]; cbn; [reflexivity|]. rewrite orb_false_iff. intros [H1 H2].
+  rewrite N.eqb_sym in H1. rewrite H1, (IH H2). reflexivity.
+Qed.
+Lemma split_on_app c s1 s2 : has_byte c s1 = false -> split_on c (s1 ++ c :: s2) = s1 :: split_on c s2.
+Proof.
+  induction s1 as [|y s1 IH]; cbn; [rewrite N.eqb_refl; reflexivity|]. rewrite orb_false_iff. intros [H1 H2].
+  rewrite N.eqb_sym in H1. rewrite H1, (IH H2). reflexivity.
+Qed.
+Lemma split2_app c s1 s2 : has_byte c s1 = false -> split2 c (s1 ++ c :: s2) = (s1, Some s2).
+Proof.
+  induction s1 as [|y s1 IH]; cbn; [rewrite N.eqb_refl; reflexivity|]. rewrite orb_false_iff. intros [H1 H2].
+  rewrite N.eqb_sym in H1. rewrite H1, (IH H2). reflexivity.
+Qed.
+
+Lemma pair_has_byte c p : c <> c_colon -> has_byte c (fst p) = false -> has_byte c (snd p) = false ->
+  has_byte c (pair_str p) = false.
+Proof.
+  intros Hc H1 H2. unfold pair_str. rewrite has_byte_app, H1. cbn [orb].
+  change (has_byte c (c_colon :: snd p)) with ((c =? c_colon)%N || has_byte c (snd p)).
+  rewrite H2, orb_false_r. apply N.eqb_neq. exact Hc.
+Qed.
+
+Lemma body_cons p ls : body (p :: ls) = pair_str p ++ c_comma :: body ls.
+Proof. unfold body, kv, pair_str. cbn [map concat]. rewrite <- !app_assoc. cbn. rewrite <- app_assoc. reflexivity. Qed.
+
+Lemma split_body ls : labels_clean ls = true -> split_on c_comma (body ls) = map pair_str ls ++ [[]].
+Proof.
+  unfold labels_clean. induction ls as [|p ls IH]; [reflexivity|]. cbn [forallb]. rewrite !andb_true_iff.
+  intros [[Hk Hv] Hl]. rewrite body_cons, split_on_app, (IH Hl); [reflexivity|].
+  apply pair_has_byte; [discriminate | apply (clean_bytes _ Hk) | apply (clean_bytes _ Hv)].
+Qed.
+
+Lemma body_no_lbrace ls : labels_clean ls = true -> has_byte c_lbrace (body ls) = false.
+Proof.
+  unfold labels_clean. induction ls as [|p ls IH]; [reflexivity|]. cbn [forallb]. rewrite !andb_true_iff.
+  intros [[Hk Hv] Hl]. rewrite body_cons, has_byte_app.
+  change (has_byte c_lbrace (c_comma :: body ls)) with ((c_lbrace =? c_comma)%N || has_byte c_lbrace (body ls)).
+  rewrite (IH Hl).
+  rewrite pair_has_byte; [reflexivity | discriminate | apply (clean_bytes _ Hk) | apply (clean_bytes _ Hv)].
+Qed.
+
+Lemma metric_of_render name ls : clean name = true -> labels_clean ls = true ->
+  metric_of_id (render_id name ls) = name.
+Proof.
+  intros Hn Hl. unfold metric_of_id, render_id.
+  rewrite split_on_app by apply (clean_bytes _ Hn).
+  rewrite split_on_clean by (apply body_no_lbrace; exact Hl). reflexivity.
+Qed.
+
+Lemma join_body xs : join c_comma (map pair_str xs ++ [[]]) = body xs.
+Proof.
+  induction xs as [|p xs IH]; [reflexivity|]. cbn [map app]. rewrite body_cons, <- IH.
+  destruct (map pair_str xs ++ [[]]) eqn:E; [destruct (map pair_str xs); discriminate|]. reflexivity.
+Qed.
+
+(* GetSeriesIdWithoutFields on a well-formed id: the labels not named in the list, in id order *)
+Theorem without_fields_spec name ls fields : clean name = true -> labels_clean ls = true ->
+  without_fields (render_id name ls) fields =
+  render_id name (filter (fun p => negb (mem_str (fst p) fields)) ls).
+Proof.
+  intros Hn Hl. destruct fields as [|f0 fs]; [cbn; rewrite filter_true; reflexivity|].
+  set (fields := f0 :: fs). unfold without_fields. fold fields.
+  assert (Hkeep : forall xs, labels_clean xs = true ->
+     filter (fun part => match split2 c_colon part with (k, Some _) => negb (mem_str k fields) | (_, None) => true end)
+            (map pair_str xs ++ [[]]) =
+     map pair_str (filter (fun p => negb (mem_str (fst p) fields)) xs) ++ [[]]).
+  { unfold labels_clean. induction xs as [|p xs IH]; [reflexivity|]. cbn [forallb]. rewrite !andb_true_iff.
+    intros [[Hk Hv] Hx]. cbn [map app filter]. unfold pair_str at 1.
+    rewrite split2_app by apply (clean_bytes _ Hk). rewrite (IH Hx).
+    destruct (negb (mem_str (fst p) fields)); reflexivity. }
+  destruct ls as [|p ls].
+  - unfold render_id. cbn [body map concat filter].
+    change (name ++ [c_lbrace]) with (name ++ c_lbrace :: []).
+    rewrite split_on_clean.
+    + rewrite split2_app by apply (clean_bytes _ Hn). cbn. reflexivity.
+    + rewrite has_byte_app. destruct (clean_bytes _ Hn) as [_ [H _]]. rewrite H. reflexivity.
+  - unfold render_id. rewrite body_cons.
+    assert (Hp : labels_clean [p] = true /\ labels_clean ls = true).
+    { unfold labels_clean in *. cbn [forallb] in *. rewrite andb_true_iff in Hl. rewrite andb_true_r. exact Hl. }
+    destruct Hp as [Hp Hls]. unfold labels_clean in Hp. cbn [forallb] in Hp. rewrite andb_true_r, andb_true_iff in Hp.
+    destruct Hp as [Hk Hv].
+    change (name ++ c_lbrace :: pair_str p ++ c_comma :: body ls) with (name ++ (c_lbrace :: pair_str p) ++ c_comma :: body ls).
+    rewrite app_assoc, split_on_app, (split_body ls Hls).
+    + cbn [app]. rewrite <- app_assoc. cbn [app]. rewrite split2_app by apply (clean_bytes _ Hn).
+      change (pair_str p :: map pair_str ls ++ [[]]) with (map pair_str (p :: ls) ++ [[]]).
+      rewrite (Hkeep (p :: ls) Hl), join_body. reflexivity.
+    + rewrite has_byte_app. destruct (clean_bytes _ Hn) as [_ [H _]]. rewrite H. cbn.
+      apply pair_has_byte; [discriminate | apply (clean_bytes _ Hk) | apply (clean_bytes _ Hv)].
+Qed.
+
+(* getAggSeriesId with a by-list on a well-formed id: the named labels that are present, in list order *)
+Definition by_labels (ls : labels) (fields : list str) : labels :=
+  flat_map (fun f => match lookup f ls with Some v => [(f, v)] | None => [] end) fields.
+
+Theorem by_fields_spec name ls fields : fields <> [] ->
+  forallb (extract_guard name ls) fields = true ->
+  agg_series_id (render_id name ls) fields false =
+  name ++ c_lbrace :: join c_comma (map pair_str (by_labels ls fields)).
+Proof.
+  intros Hne Hg. unfold agg_series_id. destruct fields as [|f0 fs] eqn:Ef; [congruence|]. rewrite <- Ef in *.
+  assert (Hcl : clean name = true /\ labels_clean ls = true).
+  { rewrite Ef in Hg. cbn [forallb] in Hg. rewrite andb_true_iff in Hg. destruct Hg as [Hg _].
+    unfold extract_guard in Hg. rewrite !andb_true_iff in Hg. tauto. }
+  rewrite metric_of_render by tauto. f_equal. f_equal. f_equal.
+  clear Hne Ef. unfold extract_pairs, by_labels. induction fields as [|f fields IH]; [reflexivity|].
+  cbn [forallb] in Hg. rewrite andb_true_iff in Hg. destruct Hg as [Hf Hg].
+  cbn [flat_map]. rewrite map_app, (IH Hg), (group_key_extraction_guarded name ls f Hf).
+  destruct (lookup f ls); reflexivity.
+Qed.
+
+Lemma lookup_nodup ls : NoDup (map fst ls) -> forall k v, In (k, v) ls <-> lookup k ls = Some v.
+Proof.
+  induction ls as [|[a w] ls IH]; intros Hn k v; cbn; [split; [tauto|discriminate]|].
+  inversion Hn as [|? ? Ha Hn']; subst. destruct (str_eqb a k) eqn:E.
+  - apply str_eqb_eq in E. subst a. split.
+    + intros [H|H]; [congruence|]. exfalso. apply Ha. apply in_map_iff. exists (k, v). auto.
+    + intros H. left. congruence.
+  - apply str_eqb_neq in E. rewrite <- (IH Hn'). split; [intros [H|H]; [congruence|exact H] | auto].
+Qed.
+
+(* grouping by all labels of the id (in id order) gives the id's own label list back *)
+Theorem by_all_labels_identity name ls : ls <> [] -> NoDup (map fst ls) ->
+  forallb (extract_guard name ls) (map fst ls) = true ->
+  agg_series_id (render_id name ls) (map fst ls) false =
+  name ++ c_lbrace :: join c_comma (map pair_str ls).
+Proof.
+  intros Hne Hn Hg. rewrite by_fields_spec; [|destruct ls; [congruence|discriminate]|exact Hg].
+  f_equal. f_equal. f_equal. unfold by_labels.
+  assert (H : forall sub, (forall p, In p sub -> In p ls) ->
+     flat_map (fun f => match lookup f ls with Some v => [(f, v)] | None => [] end) (map fst sub) = sub).
+  { induction sub as [|[k v] sub IH]; intros Hs; [reflexivity|]. cbn [map flat_map fst].
+    rewrite (proj1 (lookup_nodup ls Hn k v) (Hs _ (or_introl eq_refl))). cbn [app]. f_equal.
+    apply IH. intros p Hp. apply Hs. right. exact Hp. }
+  rewrite H by auto. reflexivity.
+Qed.
+
+(* witness (confirmed on the real code): labels a, ab, b, ba — the group id reports b = value of ab *)
+Theorem by_all_labels_identity_refuted :
+  exists name ls, ls <> [] /\ NoDup (map fst ls) /\ clean name = true /\ labels_clean ls = true /\
+    agg_series_id (render_id name ls) (map fst ls) false <> name ++ c_lbrace :: join c_comma (map pair_str ls).
+Proof.
+  exists [109%N], [([97],[49]); ([97;98],[120]); ([98],[112]); ([98;97],[117])]%N.
+  split; [discriminate|]. split.
+  - repeat constructor; cbn; intuition discriminate.
+  - split; [reflexivity|]. split; [reflexivity|]. vm_compute. discriminate.
+Qed.
+
+(* by L  and  without (all keys \ L)  keep the same labels (all series of a metric share the key set) *)
+Theorem by_without_dual name ls fields :
+  NoDup (map fst ls) -> fields <> [] ->
+  forallb (extract_guard name ls) fields = true ->
+  let rest := filter (fun k => negb (mem_str k fields)) (map fst ls) in
+  exists l1 l2,
+    agg_series_id (render_id name ls) fields false = name ++ c_lbrace :: join c_comma (map pair_str l1) /\
+    agg_series_id (render_id name ls) rest true = render_id name l2 /\
+    forall k v, In (k, v) l1 <-> In (k, v) l2.
+Proof.
+  intros Hn Hne Hg rest.
+  assert (Hcl : clean name = true /\ labels_clean ls = true).
+  { destruct fields as [|f0 fs]; [congruence|]. cbn [forallb] in Hg. rewrite andb_true_iff in Hg. destruct Hg as [Hg _].
+    unfold extract_guard in Hg. rewrite !andb_true_iff in Hg. tauto. }
+  exists (by_labels ls fields), (filter (fun p => negb (mem_str (fst p) rest)) ls).
+  split; [apply by_fields_spec; assumption|]. split.
+  - unfold agg_series_id. apply without_fields_spec; tauto.
+  - intros k v. unfold by_labels. rewrite in_flat_map, filter_In. split.
+    + intros [f [Hf Hin]]. destruct (lookup f ls) as [w|] eqn:El; [|destruct Hin].
+      destruct Hin as [E|[]]. injection E as <- <-. split; [apply (lookup_nodup ls Hn); exact El|].
+      cbn [fst]. rewrite negb_true_iff, mem_str_false. unfold rest. rewrite filter_In, negb_true_iff, mem_str_false. tauto.
+    + intros [Hin Hm]. cbn [fst] in Hm. rewrite negb_true_iff, mem_str_false in Hm. unfold rest in Hm.
+      rewrite filter_In, negb_true_iff, mem_str_false in Hm.
+      assert (Hk : In k (map fst ls)) by (apply in_map_iff; exists (k, v); auto).
+      assert (Hf : In k fields).
+      { destruct (mem_str k fields) eqn:E; [apply mem_str_In; exact E|]. apply mem_str_false in E. tauto. }
+      exists k. split; [exact Hf|]. rewrite (proj1 (lookup_nodup ls Hn k v) Hin). left. reflexivity.
+Qed.
